@@ -168,6 +168,6 @@ package state
 // (stores by reflection - the cbor decoder of package persist - are not visible to the audit;
 // element writes go through the methods' frames)
 //@ fieldwriters[C04,C08,C02] State.ExecPath = (*State).Down, (*State).Up, (*State).Restart
-//@ fieldwriters[C04,C08,C02] State.SizeIdx = (*State).Down, (*State).Up, (*State).Next, (*State).Previous, (*State).Restart
+//@ fieldwriters[C04,C08,C02] State.SizeIdx = (*State).Down, (*State).Up, (*State).Next, (*State).Previous, (*State).Restart, engine.(*DefaultEngine).runFirst$1
 //@ fieldwriters[C06,C08,C20] State.Flags = NewState
 //@ fieldwriters[C03,C17] State.input = (*State).SetInput, (*State).Restart
